@@ -71,12 +71,25 @@ func TestC19(t *testing.T) {
 		} else {
 			winHi = ps + 3*yearNs
 			if p.Kind == KExp {
-				winHi = ps + 40*p.StepNs
+				// an open-ended exponential period is observed up to its 300th step (as far as unix
+				// nanoseconds reach)
+				maxSteps := (maxNowNs - ps) / p.StepNs
+				if maxSteps > 300 {
+					maxSteps = 300
+				}
+				if maxSteps < 1 {
+					maxSteps = 1
+				}
+				winHi = ps + maxSteps*p.StepNs
 			}
 		}
 		if p.Kind == KExp {
 			nSteps := (winHi - ps) / p.StepNs
 			n := rapid.Int64Range(0, nSteps).Draw(t, "step")
+			if nSteps > 100 && rapid.Bool().Draw(t, "lateStep") {
+				n = rapid.Int64Range(100, nSteps).Draw(t, "stepLate")
+				classes = append(classes, "exp_step_100_or_later")
+			}
 			winLo = ps + n*p.StepNs
 			if winLo+p.StepNs < winHi {
 				winHi = winLo + p.StepNs
